@@ -429,3 +429,125 @@ def campaign(ctx, n):
         else:
             res.traces_validated += 1
     res.extra['netbal_stats'] = stats
+
+
+# ---------------------------------------------------------------------------------------------- stall trials (C04 on the balanced network, OFProps/C04NetBal.lean)
+
+CONN_TIMEOUT = 5000      # ZMQ_CONN_TIMEOUT (ms)
+
+
+def gen_stall_trial(rng, rounds=None):
+    """random restart-free reachable prefix, clock readings inside one connection time-out; then ONE victim (a worker W_v or the rejoin J) makes no event at
+    all for `rounds` scheduler rounds while all the other nodes step in random order.  kind: worker | rejoin | beyond (worker stall, the clock jumps beyond the
+    connection time-out after a few rounds)"""
+    topo = gen_topology(rng)
+    b = topo['b']; n = b + 2
+    style = rng.choice(['flow', 'flow', 'loose', 'chaos'])
+    topo['style'] = 'stall-' + style
+    if rounds is None: rounds = 200 if rng.random() < 0.1 else 20
+    r = rng.random()
+    kind = 'worker' if r < 0.5 else 'rejoin' if r < 0.9 else 'beyond'
+    victim = b + 1 if kind == 'rejoin' else rng.randint(1, b)
+    evs, t = [], 1000
+    for r_ in range(rng.choice([0, 1, 2, 3, 4, 6, 8, 12, 16])):
+        t += rng.choice([100, 100, 50, 1, 0])
+        order = list(range(n)); rng.shuffle(order)
+        if style == 'flow' and rng.random() < 0.5: order = order + [0]
+        for i in order:
+            if style == 'chaos':
+                for _ in range(rng.randint(0, 3)): evs.append({'k': 'recv', 'i': i} if rng.random() < 0.5 else {'k': 'send', 'i': i, 't': t})
+            else:
+                p = 0.95 if style != 'loose' else 0.7
+                if rng.random() < p: evs.append({'k': 'recv', 'i': i})
+                if rng.random() < p: evs.append({'k': 'send', 'i': i, 't': t})
+    start = len(evs)
+    t0 = t
+    for r_ in range(rounds):
+        t += rng.choice([10, 10, 5, 1, 0])
+        if kind == 'beyond' and r_ == 3: t += CONN_TIMEOUT + 1000
+        order = [i for i in range(n) if i != victim]; rng.shuffle(order)
+        for i in order:
+            if rng.random() < 0.9: evs.append({'k': 'recv', 'i': i})
+            if rng.random() < 0.9: evs.append({'k': 'send', 'i': i, 't': t})
+    return {'topo': topo, 'evs': evs, 'stall': {'victim': victim, 'kind': kind, 'start': start, 'rounds': rounds, 't0': t0, 't1': t}}
+
+
+def stall_info(trial, obs, handed, pubs):
+    """numbers of the stall part, from the publish log of the REAL objects and the snapshot just before the stall"""
+    b = trial['topo']['b']; s = trial['stall']; start, v = s['start'], s['victim']
+    ids = {}                                            # (node, output) -> ids put there during the stall
+    for e_, i_, k_, mid_, f_, c_ in pubs:
+        if e_ >= start: ids.setdefault((i_, k_), set()).add(mid_)
+    snap0 = obs[start - 1][1] if 0 < start <= len(obs) else None
+    def tracked(u, o, who):                             # BalPre of OFProps/C04NetBal.lean: tracked on output o as a synchronised client, heard inside the window, nothing of it queued
+        if snap0 is None or snap0[u]['clients'] is None: return False, False
+        ent = [c for c in snap0[u]['clients'] if c[0].startswith(cid(who) + '#') and c[1] == o and c[4] == 0 and s['t1'] - CONN_TIMEOUT <= c[2]]
+        return bool(ent), bool(ent) and snap0[u]['reqs'][o] == 0
+    info = {'S_out': {o: len(ids.get((0, o), ())) for o in range(b)}, 'W': {w: len(ids.get((w, 0), ())) for w in range(1, b + 1)},
+            'handed': {w: sum(1 for h in handed if h[0] >= start and h[1] == w and h[2] is not None) for w in range(1, b + 1)}}
+    if s['kind'] != 'rejoin': info['tracked'], info['pre'] = tracked(0, v - 1, v)
+    else:
+        tr = [tracked(w, 0, b + 1) for w in range(1, b + 1)]
+        info['tracked'] = all(x[0] for x in tr); info['pre'] = all(x[1] for x in tr)
+    return info
+
+
+def stall_oracle(trial, info):
+    """'netbal-overrun-after-stall': the REAL splitter / a real worker published more than the bound of OFProps/C04NetBal.lean (proved: 1 id on the output of a
+    stalled worker that was tracked with none of its requests queued - C04_netbal_worker_stall_bounded_partial; measured on model and implementation, same
+    constant: tracked with a request still queued; a stalled rejoin: 1 set per worker, 2 ids per output of the splitter)"""
+    b = trial['topo']['b']; s = trial['stall']; v = s['victim']; out = []
+    if s['kind'] == 'worker' and info['tracked'] and info['S_out'][v - 1] > 1:
+        out.append(('netbal-overrun-after-stall', f"worker {v} stalled (tracked, clock inside the window): the splitter put {info['S_out'][v - 1]} further ids on output {v - 1} (bound 1)"))
+    if s['kind'] == 'rejoin' and info['tracked']:
+        for w, k in info['W'].items():
+            if k > 1: out.append(('netbal-overrun-after-stall', f"the rejoin stalled: worker {w} (tracks it) published {k} further sets (bound 1)"))
+        for o, k in info['S_out'].items():
+            if k > 2: out.append(('netbal-overrun-after-stall', f"the rejoin stalled: the splitter put {k} further ids on output {o} (bound 2 per output, {2 * b} in total)"))
+    return out
+
+
+def stall_campaign(ctx, n):
+    """n stall trials: real MQ objects vs OF.NetBal (netb.run) event by event + the oracle netbal-overrun-after-stall on the real objects"""
+    logging.disable(logging.CRITICAL)
+    res, rng = ctx.result, ctx.rng
+    trials = [c['trial'] for c in ctx.corpus if c.get('feed') == 'netbal-stall']
+    if ctx.replay and ctx.replay.get('case', {}).get('feed') == 'netbal-stall': trials = [ctx.replay['case']['trial']]; n = 0
+    for _ in range(n): trials.append(gen_stall_trial(rng))
+    impl = [run_impl(t) for t in trials]
+    model = ctx.driver.batch([model_request(t) for t in trials]) if ctx.driver else None
+    stats = {}
+    def bump(k, d=1): stats[k] = stats.get(k, 0) + d
+    def top(k, v): stats[k] = max(stats.get(k, 0), v)
+    for idx, (t, (obs, handed, pubmid, pubs)) in enumerate(zip(trials, impl)):
+        b = t['topo']['b']; s = t['stall']; v = s['victim']; kind = s['kind']
+        info = stall_info(t, obs, handed, pubs)
+        bump('kind:' + kind); bump(f'{kind}:tracked', int(info['tracked'])); bump(f'{kind}:BalPre', int(info['pre']))
+        if kind == 'rejoin':
+            top('rejoin:max_ids_per_output_of_S', max(info['S_out'].values())); top('rejoin:max_sets_per_worker', max(info['W'].values()))
+            top(f'rejoin:max_total_of_S:b={b}', sum(info['S_out'].values()))
+        else:
+            top(f'{kind}:max_ids_on_victim_output' + (':tracked' if info['tracked'] else ':untracked'), info['S_out'][v - 1])
+            others = sum(k for o, k in info['S_out'].items() if o != v - 1)
+            bump(f'{kind}:others_served', int(others > 0)); bump(f'{kind}:others_ids', others)
+            if kind == 'worker' and info['pre']: top('worker:max_ids_on_victim_output:BalPre', info['S_out'][v - 1])
+        published = sum(info['S_out'].values()) + sum(info['W'].values())
+        res.note({'feed': 'netbal-stall', 'b': b, 'kind': kind, 'victim': v, 'rounds': s['rounds'], 'tracked': info['tracked'], 'pre': info['pre'],
+                  'S_out': info['S_out'], 'W': info['W']}, nontrivial=False)
+        if published: res.nontrivial.add(f'netbal-stall:{ctx.seed}:{idx}:{kind}:{v}:{published}')
+        for key, what in stall_oracle(t, info)[:1]:
+            res.violations.append(Violation(key, what, {'feed': 'netbal-stall', 'trial': t}))
+        if model is None: continue
+        r = model[idx]
+        if 'err' in r:
+            res.disagreements.append({'point': 'netb.run (stall)', 'case': {'feed': 'netbal-stall', 'trial': t}, 'impl': None, 'model': r}); continue
+        m, origins = canon_model(r, t)
+        o = netfeed.canon_impl(obs)
+        m = m[:len(o)]
+        if m != o:
+            ci = next((i for i, (a, b_) in enumerate(zip(o, m)) if a != b_), min(len(o), len(m)))
+            res.disagreements.append({'point': f'MQ network (balanced, stall of node {v}) event #{ci} {t["evs"][ci] if ci < len(t["evs"]) else None} vs OF.NetBal.step',
+                                      'case': {'feed': 'netbal-stall', 'trial': t}, 'impl': o[ci] if ci < len(o) else None, 'model': m[ci] if ci < len(m) else None})
+        else:
+            res.traces_validated += 1
+    res.extra['netbal_stall_stats'] = stats
